@@ -151,5 +151,16 @@ func checkC02(tier string) int {
 }
 
 func runCaseMore(kind string, spec json.RawMessage) vx.Out {
+	switch kind {
+	case "genwait":
+		var a struct {
+			Node int64 `json:"node"`
+			Back bool  `json:"back"`
+		}
+		json.Unmarshal(spec, &a)
+		return runBody(func() vx.Out { return nsqd.RunGenerateIDWaits(a.Node, a.Back) })
+	case "nodeid":
+		return vx.Out{Obs: "node id range", Viol: nsqd.CheckNodeIDRange()}
+	}
 	return vx.Out{Obs: "unknown case kind " + kind, Viol: []vx.Found{{Sig: "INFRA unknown case kind " + kind}}}
 }
